@@ -574,7 +574,15 @@ func (fi *FnIntervals) eval(v ssa.Value, b *ssa.BasicBlock) Itv {
 				}
 				hi := new(big.Int).Lsh(big.NewInt(1), uint(m.BitLen()))
 				hi.Sub(hi, big.NewInt(1))
-				return clamp(Itv{big.NewInt(0), hi})
+				lo := big.NewInt(0)
+				if x.Op == token.OR {
+					// x|y >= max(x, y) for non-negative operands
+					lo = xi.Lo
+					if yi.Lo.Cmp(lo) > 0 {
+						lo = yi.Lo
+					}
+				}
+				return clamp(Itv{lo, hi})
 			}
 			return top
 		case token.SHL:
